@@ -3,7 +3,7 @@ CONSTANTS
     Mode = "mc"
     Depth = 0
     Kinds = {"unary", "prod", "exch"}
-    MaxN = 3
+    MaxN = 2
     Limits = {1, 2}
     InitErrs = {FALSE, TRUE}
     Inputs = {"ok", "drift"}
@@ -12,6 +12,7 @@ CONSTANTS
     MaxPerTurn = 2
     MaxFaults = 99
     MaxCur = 4
+    OpenFaults = TRUE
     RequireEOS = TRUE
     ExcFirst = TRUE
 VIEW View
